@@ -140,6 +140,11 @@ def run(ctx: core.Ctx):
         rc = compiled()
         rc = rc if isinstance(rc, tuple) else (rc,)
         ri = ri if isinstance(ri, tuple) else (ri,)
+        if kind == "band" and np.asarray(ri[0]).size and (not np.all(np.isfinite(np.asarray(ri[0], dtype="float64"))) or np.abs(np.asarray(ri[0], dtype="float64")).max() > 32766.4):
+            # the interpreter's float curve leaves the int16 range: the compiled kernel stores it into an int16 band (wrap-around of the C
+            # cast), the interpreted source into a float buffer - curves outside int16 are outside the claim of every smoother property
+            ctx.count("band outside the int16 range: out of claim")
+            return
         for k, (c, i) in enumerate(zip(rc, ri)):
             ok = band_close(c, i) if (kind == "band" and k == 0) else close(c, i, rel)
             if not ok:
